@@ -661,6 +661,11 @@ func (s *BgpServer) prePolicyFilterpath(peer *peer, path, old *table.Path) (*tab
 		}
 		if table.CanImportToVrf(vrf, path) {
 			path = path.ToLocal()
+		} else if !path.IsWithdraw && old != nil && table.CanImportToVrf(vrf, old) {
+			// The route being replaced was imported into the VRF (and
+			// advertised) but its replacement is not: withdraw it.
+			path = old.Clone(true).ToLocal()
+			old = nil
 		} else {
 			return nil, nil, true
 		}
